@@ -129,7 +129,11 @@ func (w *runWorld) keyDriver(id, nops int) {
 	for i := 0; i < nops && !c.Failed(); i++ {
 		w.maybeGate()
 		key := keysU[c.S.Plan(len(keysU))]
-		switch k := c.S.Plan(20); {
+		k := c.S.Plan(20)
+		if i == 0 && c.S.PlanP(700) {
+			k = 0 // most scripts start by adding a key
+		}
+		switch {
 		case k < 5:
 			c.Descf("driver %d: SetKey(%q)", id, key)
 			w.k.SetKey(key, c.S.PlanP(500))
@@ -192,7 +196,11 @@ func (w *runWorld) ctxDriver(nops int) {
 	c := w.c
 	for i := 0; i < nops && !c.Failed(); i++ {
 		w.maybeGate()
-		switch c.S.Plan(6) {
+		op := c.S.Plan(6)
+		if i == 0 && c.S.PlanP(800) {
+			op = 0 // most runs start by giving the container a context
+		}
+		switch op {
 		case 0, 1, 2:
 			tag := len(w.ctxs) + 1
 			ctx, _ := core.TaggedContext(context.Background(), tag)
